@@ -12,6 +12,7 @@
            non-ASCII characters other than U+0130 / U+212A is immaterial.
    Table   LicTable.spdx_table_ok is re-proved by vm_compute over the table of the working tree on every run.
    Text    Whether "LicenseRef-x+" is well-formed is not fixed by the property; the code accepts it and so does LicSpec.lic_canon.
+           The idstring of a LicenseRef is not empty (SPDX: 1*(...)); "LicenseRef-" is rejected since fix 8e6ceae.
    Trusted (NOT PROVED, validated by the correspondence run only): that CPython's eval() of the False/or/and/(/) skeleton behaves like
            LicModel.py_eval (exhaustive sweep over all guard-passing skeletons up to the length bound of the run + depth probes); that
            str.lower/split/replace and re.match behave like LicModel.lower/split_ws/rep2/ref_match (probed over all code points).
@@ -119,19 +120,20 @@ Proof. exact (conj spdx_table_ok spdx_keys_nodup). Qed.
 Print Assumptions C19_table_invariants.
 
 (* 9. "known identifier", declaratively.  A token w is a simple expression with canonical spelling o  iff  w = core ++ plus where plus
-      is "+" exactly when w ends in "+", and either core is "LicenseRef-" (any ASCII case) followed by letters, digits, "." and "-"
-      only (then o = "LicenseRef-" + the suffix as written + plus), or core does not start with "licenseref-" and equals, up to ASCII
+      is "+" exactly when w ends in "+", and either core is "LicenseRef-" (any ASCII case) followed by ONE OR MORE letters, digits, "."
+      and "-" only (then o = "LicenseRef-" + the suffix as written + plus), or core does not start with "licenseref-" and equals, up to ASCII
       case, an id of the licence table (then o = that id + plus).  An exception identifier is an id of the exception table up to ASCII
       case.  (Audit form first, then with the LicenseRef branch split into prefix and suffix.) *)
 Theorem C19_simple_ids w o : lic_canon licenses w = Some o <->
   exists core plus, w = core ++ plus /\ ((plus = [] /\ last_is 43 w = false) \/ plus = [43]) /\
-    ((prefixb licenseref_lc (afold core) = true /\ forallb ref_char core = true /\ o = licenseref_prefix ++ skipn 11 core ++ plus) \/
+    ((prefixb licenseref_lc (afold core) = true /\ forallb ref_char core = true /\ skipn 11 core <> [] /\
+      o = licenseref_prefix ++ skipn 11 core ++ plus) \/
      (prefixb licenseref_lc (afold core) = false /\ exists id, In id (map snd licenses) /\ afold id = afold core /\ o = id ++ plus)).
 Proof. exact (finalb_simple_ids w o). Qed.
 Print Assumptions C19_simple_ids.
 Theorem C19_simple_ids_readable w o : lic_canon licenses w = Some o <->
   exists core plus, w = core ++ plus /\ ((plus = [] /\ last_is 43 w = false) \/ plus = [43]) /\
-    ((exists p suffix, core = p ++ suffix /\ afold p = licenseref_lc /\ forallb ref_char suffix = true /\
+    ((exists p suffix, core = p ++ suffix /\ afold p = licenseref_lc /\ suffix <> [] /\ forallb ref_char suffix = true /\
                        o = licenseref_prefix ++ suffix ++ plus) \/
      (prefixb licenseref_lc (afold core) = false /\ exists id, In id (map snd licenses) /\ afold id = afold core /\ o = id ++ plus)).
 Proof. exact (finalb_simple_ids_readable w o). Qed.
@@ -147,12 +149,11 @@ Theorem C19_no_table_id_is_a_licenseref id : In id (map snd licenses) -> prefixb
 Proof. intros H. pose proof finalb_no_licenseref_in_table as T. rewrite forallb_forall in T. now apply negb_true_iff, T. Qed.
 Print Assumptions C19_no_table_id_is_a_licenseref.
 (* 9b. where this reading differs from SPDX proper (Annex D: license-ref = "LicenseRef-" idstring, idstring = 1*(ALPHA/DIGIT/"-"/"."),
-       simple-expression = license-id / license-id "+" / license-ref): exactly two extra forms - a LicenseRef with EMPTY idstring
-       ("LicenseRef-", "licenseref-+") and a LicenseRef followed by "+".  "GPL-2.0++" is license-id "+" with the (deprecated) table id
-       "GPL-2.0+", i.e. within SPDX proper. *)
+       simple-expression = license-id / license-id "+" / license-ref): exactly one extra form - a LicenseRef followed by "+".
+       An EMPTY idstring ("LicenseRef-", "licenseref-+") is rejected (fix 8e6ceae; it was accepted before).  "GPL-2.0++" is
+       license-id "+" with the (deprecated) table id "GPL-2.0+", i.e. within SPDX proper. *)
 Theorem C19_simple_ids_vs_spdx_proper w o : lic_canon licenses w = Some o <->
   strict_simple licenses w o \/
-  (ref_empty_suffix w /\ o = licenseref_prefix ++ skipn 11 w) \/
   (ref_with_plus w /\ o = licenseref_prefix ++ skipn 11 w).
 Proof. exact (finalb_vs_strict w o). Qed.
 Print Assumptions C19_simple_ids_vs_spdx_proper.
@@ -231,8 +232,9 @@ Definition C19_ids_check : bool :=
   opt_is (lic_canon licenses (txt "licenseref-My.Ref+")) (Some (txt "LicenseRef-My.Ref+")) &&
   opt_is (lic_canon licenses (txt "apache-2.0")) (Some (txt "Apache-2.0")) &&
   opt_is (lic_canon licenses (txt "gpl-2.0++")) (Some (txt "GPL-2.0++")) &&          (* license-id "GPL-2.0+" followed by "+" *)
-  opt_is (lic_canon licenses (txt "LICENSEREF-")) (Some (txt "LicenseRef-")) &&      (* empty idstring: the code's reading *)
-  opt_is (lic_canon licenses (txt "licenseref-+")) (Some (txt "LicenseRef-+")) &&
+  opt_is (lic_canon licenses (txt "LICENSEREF-")) None &&                            (* empty idstring: rejected (fix 8e6ceae) *)
+  opt_is (lic_canon licenses (txt "licenseref-+")) None &&
+  opt_is (lic_canon licenses (txt "licenseref-.")) (Some (txt "LicenseRef-.")) &&
   opt_is (lic_canon licenses (txt "LicenseRef-a_b")) None &&
   opt_is (lic_canon licenses (txt "LicenseRef-a+b")) None &&
   opt_is (lic_canon licenses (txt "mit-")) None &&
